@@ -48,7 +48,7 @@ T = {
  "C16c": ("C16", r"s_insert_update1_no_expiry$"),
  "C17c": ("C17", r"sync_initial_capacity_is_inert$"),
  "C01d": ("C01", r"s_k1_is_expired_wo$|s_get0_before_watermark$|s_iterfilter0_before_watermark_no_expiry$"),
- "C03d": ("C03", r"purge_both_zero_dur_w$|purge_tti_on_deadline_w$"),
+ "C03d": ("C03", r"purge_both_tti_only_w$"),
  "C04d": ("C04", r"l_sync_idle_over_capacity_evicts$"),
  "C05d": ("C05", r"sync_iter_skips_entry_that_expires_after_iter_was_created$"),
  "C06d": ("C06", r"get0_tti_on_deadline$"),
@@ -56,11 +56,11 @@ T = {
  "C08d": ("C08", r"insert_new_ttl_full$"),
  "C09d": ("C09", r"schedule_write_op_retries_maintenance_until_the_queue_has_room$"),
  "C10d": ("C10", r"insert_upd0_n2_w_oversize$"),
- "C11d": ("C11", r"purge_both_1ns_before_w$|purge_tti_on_deadline_w$"),
+ "C11d": ("C11", r"purge_both_tti_only_w$"),
  "C12d": ("C12", r"get_hit1_n2_tti_sym$|get_hit0_n2_ttl_sym$"),
  "C13d": ("C13", r"insert_new_n2_full$"),
  "C14d": ("C14", r"invalidate_all_n2$|invalidate_all_both$"),
- "C16d": ("C16", r"k1_is_expired_entry_reads_the_entrys_own_nodes$|iter_max_dur$"),
+ "C16d": ("C16", r"iter_both_ttl_only_expired$|k1_is_expired_entry_reads_the_entrys_own_nodes$"),
 }
 if __name__ == "__main__":
     import sys, re
